@@ -195,6 +195,9 @@ func runCheck(prop, repo, verif, tier string) int {
 			} else if r.Ex.arith == "order" {
 				trusted["A-ORDER"] = true
 			}
+			for _, sp := range r.Ex.skippedPaths {
+				partial = append(partial, r.Key+": path not verified at "+sp)
+			}
 			if r.Ex.skipped > 0 {
 				partial = append(partial, fmt.Sprintf("%s: only %s obligations are generated (%d others not covered)", r.Key, strings.Join(fc.Only, ","), r.Ex.skipped))
 			}
